@@ -6,6 +6,7 @@ pub mod common;
 pub mod lin;
 pub mod conv;
 pub mod dec;
+pub mod toy;
 #[cfg(not(kani))]
 pub mod algreplay;
 
@@ -14,5 +15,6 @@ pub fn registry() -> Vec<(&'static str, fn())> {
     v.extend(lin::registry());
     v.extend(conv::registry());
     v.extend(dec::registry());
+    v.extend(toy::registry());
     v
 }
